@@ -259,7 +259,7 @@ theorem gr_mod_t_and_divide_q_last_ntt_inplace_eq (r : RNSTool) (tables : Array 
     (hinv : r.baseQ.size - 1 ≤ r.invQLastModQ.size) (hsn : r.baseQ.size * r.n < 2^64) (hs64 : r.baseQ.size < 2^64) (hp : gr_Shape r p)
     (hI : (intt (tables.getD (r.baseQ.size - 1) gr_tdflt) (p.getD (r.baseQ.size - 1) #[])).size = r.n)
     (hIw : ∀ x ∈ intt (tables.getD (r.baseQ.size - 1) gr_tdflt) (p.getD (r.baseQ.size - 1) #[]), x < 2^64)
-    (hN : ∀ i (a : Array Nat), i < r.baseQ.size - 1 → a.size = r.n → (ntt (tables.getD i gr_tdflt) a).size = r.n) :
+    (hN : ∀ i (a : Array Nat), i < r.baseQ.size - 1 → a.size = r.n → (∀ y ∈ a, y < 2 * (r.baseQ.q i).value) → (ntt (tables.getD i gr_tdflt) a).size = r.n) :
     GenR.mod_t_and_divide_q_last_ntt_inplace (flatP p) r.baseQ.size r.baseQ.base.toList r.n r.invQLastModQ.toList r.t r.invQLastModT
         (fun i x => .ok (gr_IT tables i x)) (fun i x => .ok (gr_NT tables i x))
       = (r.modTAndDivideQLastNtt tables p).map flatP := by
@@ -271,7 +271,7 @@ theorem gr_mod_t_and_divide_q_last_ntt_inplace_eq (r : RNSTool) (tables : Array 
   rw [gr_mtdn_list r.baseQ.base.toList r.invQLastModQ.toList r.t r.invQLastModT r.baseQ.size r.n (gr_IT tables) (gr_NT tables) _ hs (by simp [RNSBase.size])
     (by simpa using hinv) (by intro i hi; rw [gr_q_toList]; exact hq i hi) ht hinvt hsn hs64 hcs hn
     (by rw [hlast, Array.length_toList]; exact hI) (by rw [hlast]; intro x hx; exact hIw x (by simpa using hx))
-    (by intro i x hi hx; unfold gr_NT; rw [Array.length_toList]; exact hN i _ hi (by simpa using hx)),
+    (by intro i x hi hx hb; unfold gr_NT; rw [Array.length_toList]; exact hN i _ hi (by simpa using hx) (by intro y hy; rw [← gr_q_toList]; exact hb y (by simpa using hy))),
     gr_mtdn_model r tables p hq hs ht hinvt hp hI hIw, hlast]
   simp only [gr_q_toList, gr_cs_getD, gr_ops_toList]
   show Except.ok _ = Except.ok _
